@@ -406,15 +406,25 @@ void session_table_clear(session_table *table) {
 }
 
 int derive_session_event(const void *frame, session_table *table, const uint8_t *our_mac) {
+    /* Length unknown: the station list is trusted. Callers that know how many bytes
+     * they received must use derive_session_event_len(). */
+    return derive_session_event_len(frame, (size_t)-1, table, our_mac);
+}
+
+int derive_session_event_len(const void *frame, size_t frame_len, session_table *table, const uint8_t *our_mac) {
     if (!frame) {
         return -1;
     }
 
 #ifdef LLTD_TESTING
+    (void)frame_len;
     (void)table;
     (void)our_mac;
     return sess_discover_noack;
 #else
+    if (frame_len < sizeof(lltd_demultiplex_header_t)) {
+        return -1;
+    }
     const lltd_demultiplex_header_t *header = (const lltd_demultiplex_header_t *)frame;
 
     if (header->opcode == opcode_reset) {
@@ -433,6 +443,11 @@ int derive_session_event(const void *frame, session_table *table, const uint8_t 
         session_entry *existing = NULL;
         const lltd_discover_upper_header_t *disc_header =
             (const lltd_discover_upper_header_t *)(header + 1);
+        /* generation + station count must have been received */
+        const size_t fixed_len = sizeof(*header) + 2 * sizeof(uint16_t);
+        if (frame_len < fixed_len) {
+            return -1;
+        }
         uint16_t generation = lltd_ntohs(disc_header->generation);
         uint16_t xid = lltd_ntohs(header->seqNumber);
 
@@ -446,6 +461,11 @@ int derive_session_event(const void *frame, session_table *table, const uint8_t 
             if (station_count == 0) {
                 acking = true;
             } else {
+                /* never scan more stations than the received frame holds */
+                size_t max_stations = (frame_len - fixed_len) / sizeof(ethernet_address_t);
+                if ((size_t)station_count > max_stations) {
+                    station_count = (uint16_t)max_stations;
+                }
                 /* The station list is a packed array of 6-byte addresses (MS-LLTD 2.2.3.2),
                  * not of Ethernet headers as the element type of stationList suggests. */
                 const uint8_t *stations = (const uint8_t *)disc_header->stationList;
